@@ -191,8 +191,12 @@ def build_shape(g, d, clockwise=None):
             d = dict(d, pts=pts)
     if d.get("full") == "nominal":
         # the caller works with the nominal (rounded) coordinates of the
-        # current position, as after a traced path that "ended on target"
-        p = tuple(round(x, 9) for x in p)
+        # current position, as after a traced path that "ended on target".
+        # (9 decimals for radii >= 2, 10 below: rounding to 9 decimals moves a
+        # point by up to 7e-10, which on a small circle reaches the library's
+        # 1e-9 rad "same angle" tolerance - an ambiguous request, not judged.)
+        nd = d.get("nominal_decimals") or (9 if min(d.get("r", 2.0), d.get("r1", 2.0)) >= 2.0 else 10)
+        p = tuple(round(x, nd) for x in p)
     if s == "arc":
         r, a0 = d["r"], d["a0"]
         c = (p[0] - r * math.cos(a0), p[1] - r * math.sin(a0))
